@@ -295,7 +295,7 @@ pub fn any_ext(extensions: &BTreeSet<String>, file_name: &LossyName) -> (r: bool
 //@fn src/domain.rs matches_extensions#closure2 as=ext_matches params=`ext: &String, file_name: &LossyName` bind rty=`bool` ret=r
 //@contract
     ensures
-        /*[C15.ext-match]*/ r == ends_with(file_name.text(), ext@),
+        /*[C15.ext-match,C02.denoted,C12.matching,C13.denoted]*/ r == ends_with(file_name.text(), ext@),
 //@pre
         broadcast use axiom_pat_string;
 //@end
@@ -304,21 +304,21 @@ pub fn any_ext(extensions: &BTreeSet<String>, file_name: &LossyName) -> (r: bool
 //@closure 2 skeleton=`extensions.iter().any(<CLOSURE>)` becomes=`any_ext(extensions, &file_name)`
 //@contract
     ensures
-        /*[C15.ext-match]*/ r == name_matches(file_name.lossy(), extensions@),
+        /*[C15.ext-match,C02.denoted,C12.matching,C13.denoted]*/ r == name_matches(file_name.lossy(), extensions@),
 //@end
 
 //@fn src/domain.rs matches_extensions#closure0 as=path_matches params=`extensions: &BTreeSet<String>, file: &Path` bind rty=`bool` ret=r
 //@closure 1 skeleton=`file.file_name().is_some_and(<CLOSURE>)` becomes=`(match file.file_name() { Some(file_name) => file_name_matches(file_name, extensions), None => false })`
 //@contract
     ensures
-        /*[C15.ext-match]*/ r == (file_name_of(file.buf()) matches Some(n) && name_matches(n, extensions@)),
+        /*[C15.ext-match,C02.denoted,C12.matching,C13.denoted]*/ r == (file_name_of(file.buf()) matches Some(n) && name_matches(n, extensions@)),
 //@end
 
 //@fn src/domain.rs matches_extensions ret=r
 //@closure 0 skeleton=`extensions.as_ref().is_none_or(<CLOSURE>)` becomes=`(match extensions.as_ref() { None => true, Some(extensions) => path_matches(extensions, file) })`
 //@contract
     ensures
-        /*[C15.ext-match]*/ r == matches_ext(file.buf(), *extensions),
+        /*[C15.ext-match,C02.denoted,C12.matching,C13.denoted]*/ r == matches_ext(file.buf(), *extensions),
 //@end
 
 // ===========================================================================
@@ -369,14 +369,14 @@ pub fn filter_map_collect(v: Vec<String>) -> (r: BTreeSet<String>)
 //@fn src/config/ir.rs transform_extensions#closure1 as=non_empty params=`ext: &String` bind rty=`bool` ret=r
 //@contract
     ensures
-        /*[C15.ext-normalise]*/ r == (ext@.len() > 0),
+        /*[C15.ext-normalise,C02.denoted,C12.matching,C13.denoted]*/ r == (ext@.len() > 0),
 //@end
 
 //@fn src/config/ir.rs transform_extensions#closure2 as=with_dot params=`ext: String` bind rty=`String` ret=r
 //@replace `format!(".{}", ext)` => `prepend_dot(&ext)` rule=R12 pre why=`format!(".{}", ext) -> prelude function: the text "." followed by ext`
 //@contract
     ensures
-        /*[C15.ext-normalise]*/ r@ == dotted(ext@),
+        /*[C15.ext-normalise,C02.denoted,C12.matching,C13.denoted]*/ r@ == dotted(ext@),
 //@pre
         broadcast use axiom_pat_char;
         proof {
@@ -392,22 +392,22 @@ pub fn filter_map_collect(v: Vec<String>) -> (r: BTreeSet<String>)
 //@closure 1 skeleton=`extensions .into_iter() .filter(<CLOSURE>) .map(<CLOSURE>) .collect::<BTreeSet<_>>()` becomes=`filter_map_collect(extensions)`
 //@contract
     ensures
-        /*[C15.ext-normalise]*/ r@ == norm(extensions@),
+        /*[C15.ext-normalise,C02.denoted,C12.matching,C13.denoted]*/ r@ == norm(extensions@),
 //@end
 
 //@fn src/config/ir.rs transform_extensions#closure3 as=set_non_empty params=`extensions: &BTreeSet<String>` bind rty=`bool` ret=r
 //@contract
     ensures
-        /*[C15.ext-normalise]*/ r == (extensions@ != Set::<Name>::empty()),
+        /*[C15.ext-normalise,C02.denoted,C12.matching,C13.denoted]*/ r == (extensions@ != Set::<Name>::empty()),
 //@end
 
 //@fn src/config/ir.rs transform_extensions ret=r
 //@closure 0 skeleton=`extensions .map(<CLOSURE>) .filter(<CLOSURE>)` becomes=`(match extensions { None => None, Some(extensions) => { let extensions = normalise(extensions); if set_non_empty(&extensions) { Some(extensions) } else { None } } })`
 //@contract
     ensures
-        /*[C15.ext-normalise]*/ extensions is None ==> r is None,
-        /*[C15.ext-normalise]*/ (extensions matches Some(v) && norm(v@) == Set::<Name>::empty()) ==> r is None,
-        /*[C15.ext-normalise]*/ (extensions matches Some(v) && norm(v@) != Set::<Name>::empty()) ==> (r matches Some(s) && s@ == norm(extensions->0@)),
+        /*[C15.ext-normalise,C02.denoted,C12.matching,C13.denoted]*/ extensions is None ==> r is None,
+        /*[C15.ext-normalise,C02.denoted,C12.matching,C13.denoted]*/ (extensions matches Some(v) && norm(v@) == Set::<Name>::empty()) ==> r is None,
+        /*[C15.ext-normalise,C02.denoted,C12.matching,C13.denoted]*/ (extensions matches Some(v) && norm(v@) != Set::<Name>::empty()) ==> (r matches Some(s) && s@ == norm(extensions->0@)),
 //@end
 
 // ===========================================================================
@@ -475,17 +475,17 @@ pub proof fn lemma_listing(root: PathBuf, ext: FileExtensions)
 //@fn src/fs.rs list_files_in_path#closure3 as=path_is_file params=`path: &PathBuf` bind rty=`bool` ret=r
 //@contract
     ensures
-        /*[C15.listing]*/ r == is_file_at(*path),
+        /*[C15.listing,C02.denoted,C03.denoted,C12.matching,C13.denoted]*/ r == is_file_at(*path),
 //@end
 //@fn src/fs.rs list_files_in_path#closure4 as=file_matches params=`file: &PathBuf, extensions: &Arc<FileExtensions>` bind rty=`bool` ret=r
 //@contract
     ensures
-        /*[C15.listing]*/ r == matches_ext(*file, extensions.v),
+        /*[C15.listing,C02.denoted,C03.denoted,C12.matching,C13.denoted]*/ r == matches_ext(*file, extensions.v),
 //@end
 //@fn src/fs.rs list_files_in_path#closure5 as=path_into params=`path: PathBuf` bind rty=`PathBuf` ret=r
 //@contract
     ensures
-        /*[C15.listing]*/ r == path,
+        /*[C15.listing,C02.denoted,C03.denoted,C12.matching,C13.denoted]*/ r == path,
 //@end
 
 /// what the walk's second closure yields for one item
@@ -499,14 +499,14 @@ pub open spec fn entry_file(entry: WalkResult, ext: FileExtensions) -> Option<Pa
 //@closure 3 skeleton=`Some(path) .filter(<CLOSURE>) .filter(<CLOSURE>) .map(<CLOSURE>)` becomes=`(if path_is_file(&path) && file_matches(&path, extensions) { Some(path_into(path)) } else { None })`
 //@contract
     ensures
-        /*[C15.listing]*/ r == entry_file(entry, extensions.v),
-        /*[C15.missing]*/ entry is Err ==> r is None,
+        /*[C15.listing,C02.denoted,C03.denoted,C12.matching,C13.denoted]*/ r == entry_file(entry, extensions.v),
+        /*[C15.missing,C02.denoted]*/ entry is Err ==> r is None,
 //@end
 
 //@fn src/fs.rs list_files_in_path#closure1 as=keep_entry params=`e: &DirEntry` bind rty=`bool` ret=r
 //@contract
     ensures
-        /*[C15.listing]*/ r == !is_wd_dir(*e),
+        /*[C15.listing,C02.denoted,C03.denoted,C12.matching,C13.denoted]*/ r == !is_wd_dir(*e),
 //@end
 
 /// `walkdir.into_iter().filter_entry(keep_entry).filter_map(entry_to_file).collect()` (A-walkdir,
@@ -522,7 +522,7 @@ pub fn walk_filter_collect(walkdir: WalkDir, extensions: &Arc<FileExtensions>) -
 //@closure 1 skeleton=`walkdir .into_iter() .filter_entry(<CLOSURE>) .filter_map(<CLOSURE>) .collect()` becomes=`walk_filter_collect(walkdir, &extensions)`
 //@contract
     ensures
-        /*[C15.listing]*/ forall|p: PathBuf| #[trigger] r@.contains(p) <==> denoted(walkdir.root(), extensions.v, p),
+        /*[C15.listing,C02.denoted,C03.denoted,C12.matching,C13.denoted]*/ forall|p: PathBuf| #[trigger] r@.contains(p) <==> denoted(walkdir.root(), extensions.v, p),
 //@pre
         proof { lemma_listing(walkdir.root(), extensions.v); }
 //@end
@@ -532,7 +532,7 @@ pub fn walk_filter_collect(walkdir: WalkDir, extensions: &Arc<FileExtensions>) -
 //@closure 0 skeleton=`task::spawn_blocking(<CLOSURE>) .await` becomes=`walk(walkdir, extensions)`
 //@contract
     ensures
-        /*[C15.listing]*/ forall|p: PathBuf| #[trigger] r@.contains(p) <==> denoted(path.buf(), *extensions, p),
+        /*[C15.listing,C02.denoted,C03.denoted,C12.matching,C13.denoted]*/ forall|p: PathBuf| #[trigger] r@.contains(p) <==> denoted(path.buf(), *extensions, p),
 //@end
 
 // ===========================================================================
@@ -729,27 +729,27 @@ pub fn join_flatten_resources(resources: &[FilesResource]) -> (r: HashSet<PathBu
 //@fn src/fs.rs list_files_in_paths#closure0 as=list_one params=`path: &PathBuf, extensions: &FileExtensions` bind rty=`Vec<PathBuf>` ret=r
 //@contract
     ensures
-        /*[C15.listing]*/ forall|p: PathBuf| #[trigger] r@.contains(p) <==> denoted(*path, *extensions, p),
+        /*[C15.listing,C02.denoted,C03.denoted,C12.matching,C13.denoted]*/ forall|p: PathBuf| #[trigger] r@.contains(p) <==> denoted(*path, *extensions, p),
 //@end
 
 //@fn src/fs.rs list_files_in_paths ret=r
 //@closure 0 skeleton=`future::join_all( paths .iter() .map(<CLOSURE>), ) .await .into_iter() .flatten() .collect()` becomes=`join_flatten_paths(paths, extensions)`
 //@contract
     ensures
-        /*[C15.listing]*/ forall|p: PathBuf| #[trigger] r@.contains(p) <==> denoted_by_paths(paths@, *extensions, p),
+        /*[C15.listing,C02.denoted,C03.denoted,C12.matching,C13.denoted]*/ forall|p: PathBuf| #[trigger] r@.contains(p) <==> denoted_by_paths(paths@, *extensions, p),
 //@end
 
 //@fn src/fs.rs list_files_in_resources#closure0 as=list_resource params=`resource: &FilesResource` bind rty=`HashSet<PathBuf>` ret=r
 //@contract
     ensures
-        /*[C15.listing]*/ forall|p: PathBuf| #[trigger] r@.contains(p) <==> denoted_by_paths(resource.paths@, resource.extensions, p),
+        /*[C15.listing,C02.denoted,C03.denoted,C12.matching,C13.denoted]*/ forall|p: PathBuf| #[trigger] r@.contains(p) <==> denoted_by_paths(resource.paths@, resource.extensions, p),
 //@end
 
 //@fn src/fs.rs list_files_in_resources ret=r
 //@closure 0 skeleton=`future::join_all( resources .iter() .map(<CLOSURE>), ) .await .into_iter() .flatten() .collect()` becomes=`join_flatten_resources(resources)`
 //@contract
     ensures
-        /*[C15.listing]*/ forall|p: PathBuf| #[trigger] r@.contains(p) <==> denoted_by_resources(resources@, p),
+        /*[C15.listing,C02.denoted,C03.denoted,C12.matching,C13.denoted]*/ forall|p: PathBuf| #[trigger] r@.contains(p) <==> denoted_by_resources(resources@, p),
 //@end
 
 /// vacuity probe for the assumed walkdir / path axioms: with all of them in scope, `false` must not follow
